@@ -407,6 +407,10 @@ class Evaluator:
                                          True, True, args[1:],
                                          f"{recv[1]}.{name}", args, kwargs, loops))
                 return ("rec", args[0] if args else None, True, args[1:])
+            if recv[0] == "self" and name in ("values", "keys", "items") \
+                    and not args:
+                return ({"values": "vals", "keys": "keys", "items": "items"}[name],
+                        recv)
             if recv[0] == "self":
                 # self.attr(...) : call of a stored callable / sub-mapper
                 self.events.append(Event("selfattrcall", e,
@@ -415,6 +419,16 @@ class Evaluator:
                                          if False else name, args, kwargs, loops,
                                          value=recv))
                 return ("call", f"self.{recv[1]}.{name}", args, kwargs)
+            if isinstance(f.value, ast.Name) and f.value.id in self.env \
+                    and name in ("extend", "update") and len(args) == 1 \
+                    and self.env[f.value.id][0] in ("lit", "seq", "extend",
+                                                    "binop"):
+                prior = self.env[f.value.id]
+                if prior[0] == "lit":
+                    self.env[f.value.id] = ("lit", prior[1],
+                                            prior[2] + (("star", args[0]),))
+                else:
+                    self.env[f.value.id] = ("binop", "Add", prior, args[0])
             if isinstance(f.value, ast.Name) and f.value.id in self.env \
                     and name in ("append", "add") and len(args) == 1:
                 prior = self.env[f.value.id]
